@@ -134,3 +134,42 @@ func (m *Model) RunDotKeywords(s *Sink, rule string) {
 		s.OK(rule, key, m.Pos(h.fn.Pos()), "case evaluation on the abstract parser: after the dot an identifier and each of the %d keywords is taken as a name (as a property and as a call); an integer is refused with an error", len(words))
 	}
 }
+
+// RunKeywordTable — R-KWTABLE (C12): every data key is reachable by name "unless shadowed". A word of the keyword table
+// is never an identifier: `{{ null }}` with `"null": NIL` in the table prints nothing although the data map has a key
+// "null", and `row.null` does not parse. The language has four keywords — true, false, nil, in —, and the table holds
+// exactly those (C01 and C02 speak of true, false and nil; C03 of `in`).
+func (m *Model) RunKeywordTable(s *Sink, rule string) {
+	kws, ok := m.globalStringIntMap("token", "keywords")
+	if !ok || len(kws) == 0 {
+		s.Undecided(rule, "token.keywords", "-", "the keyword table was not found")
+		return
+	}
+	if w := m.globalMapWritten("token", "keywords"); w != "" {
+		s.Violation(rule, "token.keywords|fixed", "-", "the keyword table is written at run time (%s): which names are identifiers depends on what ran before", w)
+		return
+	}
+	spec := map[string]bool{"true": true, "false": true, "nil": true, "in": true}
+	var extra, missing []string
+	for w := range kws {
+		if !spec[w] {
+			extra = append(extra, w)
+		}
+	}
+	for w := range spec {
+		if _, have := kws[w]; !have {
+			missing = append(missing, w)
+		}
+	}
+	sort.Strings(extra)
+	sort.Strings(missing)
+	key := "token.keywords|the keywords are true, false, nil and in"
+	switch {
+	case len(extra) > 0:
+		s.Violation(rule, key, "-", "the keyword table also holds %v: a data key, struct field or variable of that name is no longer an identifier — `{{ %s }}` does not print the data value and `x.%s` needs the keyword-after-dot rule to parse at all", extra, extra[0], extra[0])
+	case len(missing) > 0:
+		s.Violation(rule, key, "-", "the keyword table lacks %v", missing)
+	default:
+		s.OK(rule, key, "-", "the table holds exactly the four keywords and only the package initialiser writes it")
+	}
+}
